@@ -183,4 +183,33 @@ def run(tier):
     total, disc, residual = panics.review(rep, "panic-review", F, fns, table, short)
     rep.extra["panic_sites"] = {"total": total, "mechanically_discharged": disc, "reviewed": sum(len(v) for v in residual.values())}
     rep.floor("panic-capable sites inventoried in encoding.rs", total, 6)
+    # encoding sniffing without a BOM: the table of detect_utf16_endianness over two-byte prefixes (constant folding).  YAML 1.2.2 5.2:
+    # the first character of a stream is ASCII, so the position of the NUL byte of its UTF-16 encoding tells the byte order -
+    # whatever that ASCII character is (a line break or a tab may start a stream just as well as a letter).
+    from engine import fold
+    import itertools
+    det = [k for k in F.fns if k.startswith("saphyr::encoding::") and F.fns[k].d.get("output", "").endswith("encoding_rs::Encoding") and "test" not in k]
+    rep.floor("byte-order sniffing functions", len(det), 1)
+    SAMPLE = (0x00, 0x09, 0x0A, 0x0D, 0x20, 0x23, 0x2D, 0x61, 0x7F, 0xC3, 0xFF)
+    for k in det:
+        f = F.fns[k]
+        bad, ncase = [], 0
+        try:
+            for n in (0, 1, 2, 3):
+                for pre in itertools.product(SAMPLE, repeat=min(n, 2)):
+                    b = tuple(pre) + ((0x2D,) if n == 3 else ())
+                    ncase += 1
+                    got = fold.Folder(F).call(k, [("ref", ("bytes", b))])
+                    while isinstance(got, tuple) and got[0] == "ref":
+                        got = got[1]
+                    if len(b) < 2 or (b[0] == 0) == (b[1] == 0):
+                        want = "encoding_rs::UTF_8"
+                    else:
+                        want = "encoding_rs::UTF_16BE" if b[0] == 0 else "encoding_rs::UTF_16LE"
+                    if got != ("static", want):
+                        bad.append("%s -> %s (expected %s)" % (" ".join("%02X" % x for x in b) or "empty", got[1] if isinstance(got, tuple) else got, want))
+        except (fold.Unsupported, fold.Diverged) as ex:
+            rep.incomplete("cannot fold %s: %s" % (short(k), ex), f.span)
+            continue
+        rep.check(not bad, "sniff-table", short(k), "byte-order sniffing of BOM-less input: %s" % "; ".join(bad[:4]), site=f.span, detail={"cases": ncase, "wrong": len(bad)})
     return rep
